@@ -86,7 +86,11 @@ func suite() hlib.Suite {
 						// the run still makes exactly the allowed iterations
 						failsScenarioT := bi == 2
 						if failsScenarioT && *prop != "C03" {
-							continue
+							if conc <= 3 {
+								continue
+							}
+							// large pools: bodies shorter than a tick as well (what one tick does not wake, the next must not hide)
+							failsScenarioT, body = false, 50*time.Millisecond
 						}
 						if conc > 3 && limit == 7 {
 							limit = uint64(conc) + 4
@@ -173,7 +177,7 @@ func suite() hlib.Suite {
 								r.Fail("C04/run-handle", "shared/"+mc.mode, "two concurrently executing iterations were handed the same test handle", input)
 							}
 							// requests per tick exceed the concurrency and bodies outlast a tick: every worker must get used
-							if body >= 100*time.Millisecond && hw < conc && limit >= uint64(conc) {
+							if (body >= 100*time.Millisecond || conc > 3) && hw < conc && limit >= uint64(conc) {
 								r.Fail("C04/run-usable", "not-all-workers/"+mc.mode, fmt.Sprintf("only %d of %d workers were ever executing at once", hw, conc), input)
 							}
 						}
